@@ -705,14 +705,18 @@ def run(ctx):
     traces = []
     keylens = [0, 1, "mid", 255, 256]
     vallens = [0, 1, "mid", 65535, 65536]
-    shapes = ctx.pick([(0,), (1,), (2,), (1, 1)], [(0,), (1,), (2,), (1, 1), (0, 1), (1, 0), (2, 1), (1, 2)])
+    shapes = ctx.pick([(0,), (1,), (2,), (1, 1)], [(0,), (1,), (2,), (1, 1), (0, 1), (1, 0)])
+    family = list(class_configs(shapes, keylens, vallens))
+    if not ctx.quick:       # three pairs / three boxes over reduced classes (the AmpWireMC.thorough2 family)
+        family += list(class_configs([(2, 1), (1, 2), (1, 1, 1)], [0, 1, 255], [0, 65535]))
     ncfg = 0
-    for cfg in class_configs(shapes, keylens, vallens):
+    for cfg in family:
         ncfg += 1
         big = any(c >= 65535 for b in cfg["boxes"] for p in b for x in p for _, c in x[1])
         scheds = schedules_for(cfg, ctx.rng, ctx.pick(0, 2))
-        if ctx.quick and len(cfg["boxes"]) * max([len(b) for b in cfg["boxes"]] + [0]) >= 2:
-            scheds = scheds[1:2] or scheds                       # quick: the all-boundaries schedule only for 2-pair configs
+        npairs = sum(len(b) for b in cfg["boxes"])
+        if (ctx.quick and npairs >= 2) or npairs >= 3:
+            scheds = scheds[1:2] or scheds                       # the all-boundaries schedule only for the larger configs
         for ops in scheds:
             traces.append(run_wire(cfg, ops, sender="amp" if (ncfg % 2) else "bbp"))
     ctx.exhaustive = True
